@@ -57,10 +57,36 @@ pub fn scenario(max_blocks: usize, max_id: u16) -> impl Strategy<Value = Scenari
 			1..=6,
 		)
 		.prop_map(|items| vec![Op::Commit(items)]);
+		// a growth-triggering bulk commit followed, before any reindex step, by rewrites (other
+		// size tier) and removals of keys whose entries still live in the older index
+		let window = (0u16..max_id, 30u16..90, small_vspec(), proptest::collection::vec((0u16..90, prop_oneof![3 => vspec(6_000).prop_map(Some), 1 => Just(None)]), 3..25), 0u8..3).prop_map(
+			move |(start, n, v, rew, tail)| {
+				let mut ops = vec![
+					Op::Commit((0..n).map(|i| Item { col: 0, ch: Change::Set((start + i) % max_id, VSpec { seed: v.seed.wrapping_add(i), ..v.clone() }) }).collect()),
+					Op::P,
+					Op::Commit(
+						rew.into_iter()
+							.map(|(o, v)| {
+								let k = (start + max_id + n - o) % max_id;
+								Item { col: 0, ch: v.map(|v| Change::Set(k, v)).unwrap_or(Change::Del(k)) }
+							})
+							.collect(),
+					),
+					Op::P,
+				];
+				match tail {
+					0 => {},
+					1 => ops.extend([Op::F, Op::E]),
+					_ => ops.push(Op::R),
+				}
+				ops
+			},
+		);
 		let block = prop_oneof![
 			5 => bulk,
+			3 => window,
 			8 => small,
-			10 => Just(vec![Op::R]),
+			7 => Just(vec![Op::R]),
 			6 => Just(vec![Op::P]),
 			3 => Just(vec![Op::P, Op::R]),
 			4 => Just(vec![Op::F]),
